@@ -27,6 +27,7 @@ from .world import (
     all_well_ids,
     gen_labware,
     gen_volume,
+    narrow_scalar,
     shape_volumes,
     shape_wells,
     well_id,
@@ -379,7 +380,7 @@ def gen_distribute(rng, st: GenState, vclass, positions_distinct_for="evo"):
         "col": col,
         "dst": dst,
         "dw": dw_arg,
-        "vol": v,
+        "vol": narrow_scalar(rng, v),
         "kw": kw,
         "_dst": ids,
         "_shapes": [d_shape, mode],
